@@ -28,7 +28,7 @@ FILE_PROPS = [
     (r"hotline/file_path\.go$", ["C07", "C11", "C05"]),
     (r"hotline/file_name_with_info\.go$", ["C01", "C11"]),
     (r"hotline/file_resume_data\.go$", ["C01", "C09", "C08"]),
-    (r"hotline/transfer\.go$", ["C02", "C08"]),
+    (r"hotline/transfer\.go$", ["C09", "C10", "C02", "C08"]),
     (r"hotline/account\.go$", ["C01", "C15"]),
     (r"hotline/access\.go$", ["C16", "C15", "C06"]),
     (r"hotline/news\.go$", ["C01", "C18"]),
